@@ -12,7 +12,7 @@ PROPERTY = 'C07'
 LEVEL = 'exploration'
 NATIVE_VARIANT = 'opt'
 GEOMS = ['page-edge', 'cache-alias', 'window-cut', 'far', 'top', 'magic', 'many', 'gaps', 'compact', 'w8',
-         'cache-alias', 'page-edge', 'window-cut', 'many-pages']
+         'cache-alias', 'page-edge', 'window-cut', 'many-pages', 'big-first']
 
 
 def plan(tier: str, seed: int) -> List[Dict[str, Any]]:
